@@ -36,11 +36,62 @@ def check(ctx):
         cases.append({"coef": {"C10": a, "C30": b}})
     cases.append({"coef": {"C10": 3.0, "C12": -2.0, "phi12": 0.4, "C21": 1.5, "phi21": 2.0, "C23": -2.0, "phi23": -1.0, "C30": 5.0,
                            "C32": 1.5, "phi32": float(np.pi / 3), "C34": -2.0, "phi34": 0.4}})
+    # deferred round trips: several conversions are made FIRST and their results used afterwards (all ordered pairs and triples of a
+    # 5-set alphabet): a later call must not change what an earlier call returned, and the caller's dicts must stay untouched
+    for seq in list(itertools.permutations(range(len(DEFERRED)), 2)) + ([] if ctx.quick else list(itertools.permutations(range(len(DEFERRED)), 3))):
+        cases.append({"kind": "deferred", "seq": list(seq)})
     ctx.workers = 8
     ctx.run(cases, "run_case", rule="one case per coefficient set; non-trivial = some magnitude is non-zero")
 
 
+DEFERRED = [{"C12": 1.5, "phi12": 0.4}, {"C12": -2.0, "phi12": 2.0, "C30": 5.0}, {"C21": 1.5, "phi21": -1.0, "C23": -2.0, "phi23": 0.4},
+            {"C10": -3.0, "C32": 1.5, "phi32": float(np.pi / 3), "C34": -2.0, "phi34": 2.0}, {"C10": 5.0}]
+
+
+def run_deferred(case):
+    import copy
+
+    import abtem.transfer as T
+    from mc.ref import chi as R
+
+    viol = []
+    alpha = np.linspace(0.0, 1.0, 6)[:, None]
+    phi = np.linspace(-np.pi, np.pi, 16, endpoint=False)[None]
+    inputs = [dict(DEFERRED[i]) for i in case["seq"]]
+    in_snap = copy.deepcopy(inputs)
+    carts, snaps = [], []
+    for d in inputs:  # all forward conversions first ...
+        c = T.polar2cartesian(d)
+        carts.append(c)
+        snaps.append(copy.deepcopy(dict(c)))
+    for k, (c, s_) in enumerate(zip(carts, snaps)):
+        if dict(c) != s_:
+            viol.append({"key": "deferred/polar2cartesian-result-changed", "msg": "the result of polar2cartesian(%r) changed after later conversions of %r: %r -> %r" % (
+                in_snap[k], in_snap[k + 1:], {a: round(b, 6) for a, b in s_.items() if b}, {a: round(b, 6) for a, b in dict(c).items() if b})})
+            break
+    polars, psnaps = [], []
+    for c in carts:  # ... then all backward conversions, then the comparison
+        p_ = T.cartesian2polar(c)
+        polars.append(p_)
+        psnaps.append(copy.deepcopy(dict(p_)))
+    for k, (p_, s_) in enumerate(zip(polars, psnaps)):
+        if dict(p_) != s_:
+            viol.append({"key": "deferred/cartesian2polar-result-changed", "msg": "the result of cartesian2polar for set %d changed after later conversions" % k})
+            break
+    for k, (d, p_) in enumerate(zip(in_snap, polars)):
+        a = R.chi(d, alpha, phi)
+        b = R.chi({x: float(v) for x, v in p_.items()}, alpha, phi)
+        e = float(np.abs(a - b).max()) / max(1.0, float(np.abs(a).max()))
+        if not e <= 1e-10 and not viol:
+            viol.append({"key": "deferred/chi-differs", "msg": "set %d of the batch %r: chi after the deferred round trip differs by %.3g" % (k, in_snap, e)})
+    if inputs != in_snap:
+        viol.append({"key": "deferred/input-modified", "msg": "a conversion modified the caller's dict"})
+    return {"viol": viol[:2], "obs": "deferred", "nt": True, "tr": 2 * len(inputs), "ref": len(inputs)}
+
+
 def run_case(case):
+    if case.get("kind") == "deferred":
+        return run_deferred(case)
     import abtem.transfer as T
     from mc.ref import chi as R
 
